@@ -320,8 +320,10 @@ func registry() map[string]PropSpec {
 	add(PropSpec{
 		ID: "C14",
 		Harnesses: []HSpec{
-			{Pkg: "signature", Name: "c14_payload", Quick: map[string]int{}, Unwind: [2]int{64, 64}, Budget: [2]int{120, 1500}, Models: []string{"net/url.Parse=vpModelURLParse", "path.Join=vpModelPathJoin"},
+			{Pkg: "signature", Name: "c14_payload", Quick: map[string]int{"verifyside": 0}, Unwind: [2]int{64, 64}, Budget: [2]int{180, 1500}, Models: []string{"net/url.Parse=vpModelURLParse", "path.Join=vpModelPathJoin"},
 				What: "payload handed to the Logger by Sign (SignedFields, env namespacing, canonicalPayload, EmptyToNil*, Plugin/Matrix MarshalJSON) for pairs of worlds: must collide for re-orderings (every Go map iteration order explored), nil vs empty env/plugins/matrix/config, short vs canonical plugin source; must differ for any single differing signed field, for characters moved between adjacent fields, between an env key and its value, between pipeline env entries, and for step env vs pipeline env"},
+			{Pkg: "signature", Name: "c14_payload", Quick: map[string]int{"verifyside": 1}, Unwind: [2]int{64, 64}, Budget: [2]int{180, 1500}, FixedMapOrder: true, Models: []string{"net/url.Parse=vpModelURLParse", "path.Join=vpModelPathJoin"},
+				What: "the same pairs of worlds with the payload that Verify rebuilds (also logged under debug signing): identical and accepted for equivalent worlds, never equal to the signed payload when the presented world's signed content differs (e.g. a signed variable with an empty value that is absent at verify time); insertion order only"},
 		},
 		Outside: []string{"JCS / encoding/json byte canonicalisation itself (number spelling, escaping, UTF-16 key sort): assumed injective on the data model", "longer strings / larger containers than the harness builds"},
 		Assumptions: []string{"ideal signature scheme: jws.Sign(k, alg, P) is the atom sigma(k, alg, P); jws.Verify succeeds iff the presented value is such an atom made with an offered key (same key-pair identity and algorithm) over an equal payload; values not produced by Sign never verify. Natively replays use real generated EdDSA/ES512/PS512/ES256 keys",
@@ -331,8 +333,10 @@ func registry() map[string]PropSpec {
 	add(PropSpec{
 		ID: "C01",
 		Harnesses: []HSpec{
-			{Pkg: "signature", Name: "c01_tamper", Quick: map[string]int{}, Unwind: [2]int{64, 64}, Budget: [2]int{120, 1500}, FixedMapOrder: true, Models: []string{"net/url.Parse=vpModelURLParse", "path.Join=vpModelPathJoin"},
+			{Pkg: "signature", Name: "c01_tamper", Quick: map[string]int{"matrix": 0}, Unwind: [2]int{64, 64}, Budget: [2]int{120, 1500}, FixedMapOrder: true, Models: []string{"net/url.Parse=vpModelURLParse", "path.Join=vpModelPathJoin"},
 				What: "Sign then Verify with a presented world that differs from the signed one in exactly one of 23 ways (command, step env value/added/removed/shadowing, plugin source/config/order/added/removed, matrix, repository URL, signed pipeline variable changed/absent, algorithm string, mandatory field or env:: field dropped, unknown or unsigned field added, forged value, another step's value, another key) - Verify must return an error; untouched world verifies. JWK keys of all three algorithms and an ES256 crypto.Signer"},
+			{Pkg: "signature", Name: "c01_tamper", Quick: map[string]int{"matrix": 1}, Unwind: [2]int{64, 64}, Budget: [2]int{120, 1500}, FixedMapOrder: true, Models: []string{"net/url.Parse=vpModelURLParse", "path.Join=vpModelPathJoin"},
+				What: "same with a signed matrix that mixes the anonymous dimension with a named one and carries an adjustment: changing the named dimension, the anonymous one, removing a dimension or flipping the skip flag must be rejected"},
 		},
 		Outside: []string{"unforgeability of EdDSA/ES512/PS512/ES256 and injectivity of json.Marshal+JCS on bytes (assumed, see assumptions)", "pure re-ordering or duplication of the signed-field list (the payload is unchanged by construction; not a semantic change)", "Go map iteration orders are not varied in this harness (order-insensitivity of the payload is C14's)"},
 		Assumptions: []string{"ideal signature scheme: jws.Sign(k, alg, P) is the atom sigma(k, alg, P); jws.Verify succeeds iff the presented value is such an atom made with an offered key (same key-pair identity and algorithm) over an equal payload; values not produced by Sign never verify. Natively replays use real generated EdDSA/ES512/PS512/ES256 keys",
